@@ -104,3 +104,11 @@ pub proof fn lemma_take_nodup<T>(s: Seq<T>, n: int)
 pub proof fn lemma_take_all<T>(s: Seq<T>)
     ensures s.take(s.len() as int) =~= s,
 {}
+/// the model's checked `/` and `%` (T6) on non-negative operands are Euclidean division and remainder
+pub proof fn lemma_ck_div_rem(a: int, b: int)
+    requires a >= 0, b > 0,
+    ensures rust_div(a, b) == a / b, rust_rem(a, b) == a % b,
+{
+    vstd::arithmetic::div_mod::lemma_fundamental_div_mod(a, b);
+    vstd::arithmetic::mul::lemma_mul_is_commutative(a / b, b);
+}
